@@ -34,6 +34,7 @@ import (
 	"github.com/ipni/go-libipni/dagsync/ipnisync"
 	"github.com/ipni/go-libipni/maurl"
 	ic "github.com/libp2p/go-libp2p/core/crypto"
+	"github.com/libp2p/go-libp2p/core/host"
 	"github.com/libp2p/go-libp2p/core/peer"
 	"github.com/multiformats/go-multiaddr"
 	"github.com/multiformats/go-multicodec"
@@ -46,6 +47,67 @@ import (
 var Clock atomic.Uint64
 
 func Tick() uint64 { return Clock.Add(1) }
+
+// ---------------------------------------------------------------------------
+// Responsive time.  A watchdog that says "this call blocks" must not fire because the machine
+// is overloaded and the process was not scheduled: time-outs are therefore measured in the
+// time this process was demonstrably able to run — a background goroutine sleeps 1 ms at a
+// time and counts its wake-ups — with a hard cap of 15 times the nominal duration in wall
+// time.  On an idle machine responsive time is wall time (within a few percent); when the
+// process is starved it runs slower; when the process is idle because everything in it is
+// blocked, it runs at full speed, so a real deadlock is still reported after the bound.
+
+var respTicks atomic.Int64
+var respOnce sync.Once
+
+func respStart() {
+	respOnce.Do(func() {
+		go func() {
+			for {
+				time.Sleep(time.Millisecond)
+				respTicks.Add(1)
+			}
+		}()
+	})
+}
+
+// Deadline expires after d of responsive time (at most 15*d of wall time).
+type Deadline struct {
+	tick0 int64
+	wall0 time.Time
+	d     time.Duration
+}
+
+func NewDeadline(d time.Duration) Deadline {
+	respStart()
+	return Deadline{respTicks.Load(), time.Now(), d}
+}
+
+func (dl Deadline) Expired() bool {
+	if time.Duration(respTicks.Load()-dl.tick0)*time.Millisecond >= dl.d {
+		return true
+	}
+	return time.Since(dl.wall0) >= 15*dl.d
+}
+
+// RespNow is the responsive clock (see above).
+func RespNow() time.Duration {
+	respStart()
+	return time.Duration(respTicks.Load()) * time.Millisecond
+}
+
+// After returns a channel that is closed when d of responsive time has passed.
+func After(d time.Duration) <-chan struct{} {
+	ch := make(chan struct{})
+	dl := NewDeadline(d)
+	go func() {
+		for !dl.Expired() {
+			time.Sleep(time.Millisecond)
+		}
+		close(ch)
+	}()
+	return ch
+}
 
 // ---------------------------------------------------------------------------
 // Stores
@@ -183,6 +245,29 @@ func (p *Pub) Extend(n int) {
 		p.prev = lnk
 		p.Chain = append(p.Chain, lnk.(cidlink.Link).Cid)
 	}
+}
+
+// ExtendEntries stores a chain of n entry-chunk-like nodes {"Next": link, "Chunk": i} and
+// returns their CIDs, head (the one to sync from) first.
+func (p *Pub) ExtendEntries(n int) []cid.Cid {
+	var out []cid.Cid
+	var next ipld.Link
+	for i := 0; i < n; i++ {
+		node := fluent.MustBuildMap(basicnode.Prototype.Map, 3, func(ma fluent.MapAssembler) {
+			if next != nil {
+				ma.AssembleEntry("Next").AssignLink(next)
+			}
+			ma.AssembleEntry("Chunk").AssignInt(int64(i))
+			ma.AssembleEntry("Of").AssignInt(int64(len(p.Chain)*1000 + p.Idx))
+		})
+		lnk, err := p.lsys.Store(ipld.LinkContext{}, chainProto, node)
+		if err != nil {
+			panic(err)
+		}
+		next = lnk
+		out = append([]cid.Cid{lnk.(cidlink.Link).Cid}, out...)
+	}
+	return out
 }
 
 func (p *Pub) SetHead(i int) { p.pub.SetRoot(p.Chain[i]) }
@@ -348,7 +433,7 @@ func (s *Sched) note(name string, peerIdx int) uint64 {
 
 // WaitFor blocks until the point has been passed n times, or the timeout; reports success.
 func (s *Sched) WaitFor(name string, peerIdx, n int, timeout time.Duration) bool {
-	deadline := time.Now().Add(timeout)
+	dl := NewDeadline(timeout)
 	for {
 		s.mu.Lock()
 		ok := s.counts[key(name, peerIdx)] >= n
@@ -357,13 +442,12 @@ func (s *Sched) WaitFor(name string, peerIdx, n int, timeout time.Duration) bool
 		if ok {
 			return true
 		}
-		rem := time.Until(deadline)
-		if rem <= 0 {
+		if dl.Expired() {
 			return false
 		}
 		select {
 		case <-ch:
-		case <-time.After(rem):
+		case <-time.After(2 * time.Millisecond):
 		}
 	}
 }
@@ -454,6 +538,12 @@ type World struct {
 // NewWorld creates a subscriber (no libp2p host: HTTP syncs and direct announcements
 // only) with an announcement receiver, a logging store and a logging block hook.
 func NewWorld(pubs []*Pub, opts ...dagsync.Option) *World {
+	return NewWorldWithHost(nil, pubs, opts...)
+}
+
+// NewWorldWithHost is NewWorld with a libp2p host (for a subscriber that listens on a gossip
+// topic; pass dagsync.RecvAnnounce(topic, ...) among opts: the last RecvAnnounce wins).
+func NewWorldWithHost(h host.Host, pubs []*Pub, opts ...dagsync.Option) *World {
 	w := &World{Store: NewLogStore(), Pubs: pubs, peers: map[peer.ID]int{}}
 	for _, p := range pubs {
 		w.peers[p.ID] = p.Idx
@@ -470,7 +560,7 @@ func NewWorld(pubs []*Pub, opts ...dagsync.Option) *World {
 		w.mu.Unlock()
 	}
 	all := append([]dagsync.Option{dagsync.RecvAnnounce(""), dagsync.BlockHook(hook)}, opts...)
-	sub, err := dagsync.NewSubscriber(nil, w.Store.LinkSystem(), all...)
+	sub, err := dagsync.NewSubscriber(h, w.Store.LinkSystem(), all...)
 	if err != nil {
 		panic(err)
 	}
@@ -513,11 +603,16 @@ func Call(d time.Duration, f func()) (returned bool, panicked interface{}) {
 		defer func() { done <- recover() }()
 		f()
 	}()
-	select {
-	case p := <-done:
-		return true, p
-	case <-time.After(d):
-		return false, nil
+	dl := NewDeadline(d)
+	for {
+		select {
+		case p := <-done:
+			return true, p
+		case <-time.After(2 * time.Millisecond):
+			if dl.Expired() {
+				return false, nil
+			}
+		}
 	}
 }
 
@@ -561,10 +656,10 @@ func LibGoroutines() []string {
 
 // WaitNoLibGoroutines polls until no library goroutine is left or the grace period ends.
 func WaitNoLibGoroutines(grace time.Duration) []string {
-	deadline := time.Now().Add(grace)
+	deadline := NewDeadline(grace)
 	for {
 		g := LibGoroutines()
-		if len(g) == 0 || time.Now().After(deadline) {
+		if len(g) == 0 || deadline.Expired() {
 			return g
 		}
 		time.Sleep(2 * time.Millisecond)
